@@ -4,6 +4,7 @@ package pgen
 
 import (
 	"bytes"
+	"runtime/debug"
 	"encoding/hex"
 	"errors"
 	"fmt"
@@ -305,7 +306,7 @@ func Observe(ep string, src []byte, u16 bool, withSegs bool, timeout time.Durati
 		var r res
 		defer func() {
 			if p := recover(); p != nil {
-				r.pan = fmt.Sprint(p)
+				r.pan = fmt.Sprint(p) + " @" + panicSite(string(debug.Stack()))
 				ch <- r
 			}
 		}()
@@ -360,6 +361,21 @@ func Observe(ep string, src []byte, u16 bool, withSegs bool, timeout time.Durati
 		out["outcome"] = "timeout"
 	}
 	return map[string]any{"k": "parse", "in": in, "out": out}
+}
+
+// panicSite: the innermost d2 function on the panicking goroutine's stack (e.g. "d2parser.trimIndent").
+func panicSite(stack string) string {
+	for _, l := range strings.Split(stack, "\n") {
+		if strings.HasPrefix(l, "oss.terrastruct.com/d2/") {
+			f := strings.TrimPrefix(l, "oss.terrastruct.com/d2/")
+			if i := strings.IndexByte(f, '('); i >= 0 && strings.HasSuffix(strings.TrimSpace(f), ")") {
+				f = f[:strings.LastIndexByte(f, '(')]
+			}
+			f = strings.NewReplacer("(*parser).", "", "(*", "", ")", "").Replace(f)
+			return f
+		}
+	}
+	return "?"
 }
 
 // wrapperErrs: ParseKey/ParseMapKey/ParseValue wrap the ParseError; "empty key" style errors carry no ParseError.
